@@ -56,3 +56,62 @@ Proof.
   rewrite bit_at_firstn by lia. unfold buffer. rewrite bit_at_firstn by exact Hq.
   rewrite bit_at_skipn. rewrite ?andb_true_r, ?andb_true_l. reflexivity.
 Qed.
+
+(* the two-word case: the addressed bytes span 9..16 bytes *)
+Theorem unaligned_two_words bs align off len :
+  wf_bytes bs ->
+  let lead := (off mod 8)%nat in
+  let bytes_len := ((len + lead + 7) / 8)%nat in
+  (8 < bytes_len <= 16)%nat -> (off / 8 + bytes_len <= length bs)%nat ->
+  let u := ubc_new bs align off len in
+  u_lead u = N.of_nat lead /\ u_trail u = N.of_nat (128 - (len + lead)) /\ u_chunks u = [] /\
+  exists p q, u_prefix u = Some p /\ u_suffix u = Some q /\
+    forall i, (i < 64)%nat ->
+      N.testbit p (N.of_nat i) = ((lead <=? i)%nat && bit_at bs (8 * (off / 8) + i)) /\
+      N.testbit q (N.of_nat i) = ((64 + i <? lead + len)%nat && bit_at bs (8 * (off / 8) + 64 + i)).
+Proof.
+  intros Hwf lead bytes_len Hb Hbound u.
+  assert (Hl8 : (lead < 8)%nat) by (apply Nat.mod_upper_bound; lia).
+  assert (H8 := Nat.div_mod (len + lead + 7) 8 ltac:(lia)). fold bytes_len in H8.
+  assert (Hr8 : ((len + lead + 7) mod 8 < 8)%nat) by (apply Nat.mod_upper_bound; lia).
+  assert (Hlen : (64 < len + lead <= 128)%nat) by lia.
+  subst u. unfold ubc_new.
+  destruct (Nat.eqb_spec len 0) as [|_]; [lia|].
+  fold lead. fold bytes_len.
+  destruct (Nat.leb_spec bytes_len 8) as [|_]; [lia|].
+  destruct (Nat.leb_spec bytes_len 16) as [_|]; [|lia].
+  destruct (suffix_mask (N.of_nat len) (N.of_nat lead)) as [sm tp] eqn:Esm.
+  cbn [u_lead u_trail u_prefix u_chunks u_suffix].
+  pose proof (trailing_padding_gen (N.of_nat len) (N.of_nat lead)) as [T1 T2]. rewrite Esm in T1, T2. cbn [snd] in T1, T2.
+  assert (Htp : tp = N.of_nat (128 - (len + lead))) by lia.
+  repeat split; try reflexivity; try exact Htp.
+  do 2 eexists. split; [reflexivity|]. split; [reflexivity|]. intros i Hi.
+  set (buffer := firstn bytes_len (skipn (off / 8) bs)).
+  assert (Hwb : wf_bytes buffer) by (unfold buffer; apply wf_firstn, wf_skipn, Hwf).
+  assert (Hlb : length buffer = bytes_len).
+  { unfold buffer. rewrite firstn_length, skipn_length. lia. }
+  split.
+  - (* prefix = read_u64(buffer[..8]) & prefix_mask *)
+    rewrite N.land_spec, prefix_mask_spec by lia.
+    unfold read_u64_slice. rewrite le_val_testbit by (apply wf_firstn, wf_firstn, Hwb).
+    assert (Hq : (i / 8 < 8)%nat) by (apply Nat.div_lt_upper_bound; lia).
+    rewrite !bit_at_firstn by lia. unfold buffer. rewrite bit_at_firstn by lia. rewrite bit_at_skipn.
+    assert (E1 : (N.of_nat lead <=? N.of_nat i)%N = (lead <=? i)%nat)
+      by (destruct (N.leb_spec (N.of_nat lead) (N.of_nat i)), (Nat.leb_spec lead i); try reflexivity; lia).
+    rewrite E1. apply andb_comm.
+  - (* suffix = read_u64(buffer[8..]) & suffix_mask *)
+    replace sm with (fst (suffix_mask (N.of_nat len) (N.of_nat lead))) by (rewrite Esm; reflexivity).
+    rewrite N.land_spec, suffix_mask_spec_gen by lia.
+    unfold read_u64_slice. rewrite le_val_testbit by (apply wf_firstn, wf_skipn, Hwb).
+    assert (Em : ((((N.of_nat len + N.of_nat lead) mod 64 =? 0)%N || (N.of_nat i <? (N.of_nat len + N.of_nat lead) mod 64)%N)
+                  = (64 + i <? lead + len)%nat)).
+    { destruct (Nat.ltb_spec (64 + i) (lead + len)); destruct (N.eqb_spec ((N.of_nat len + N.of_nat lead) mod 64) 0);
+        destruct (N.ltb_spec (N.of_nat i) ((N.of_nat len + N.of_nat lead) mod 64)); cbn [orb]; try reflexivity; lia. }
+    rewrite Em.
+    destruct (Nat.ltb_spec (64 + i) (lead + len)) as [Hin|Hout]; [|now rewrite andb_false_r].
+    rewrite andb_true_r. cbn [andb].
+    assert (Hq : (i / 8 < 8)%nat) by (apply Nat.div_lt_upper_bound; lia).
+    rewrite bit_at_firstn by lia. rewrite bit_at_skipn.
+    assert (Hq2 : ((8 * 8 + i) / 8 < bytes_len)%nat) by (apply Nat.div_lt_upper_bound; lia).
+    unfold buffer. rewrite bit_at_firstn by exact Hq2. rewrite bit_at_skipn. f_equal. lia.
+Qed.
